@@ -138,18 +138,25 @@ def shards(tier, seed):
 def gen_schedule(rnd, pool):
     nt = rnd.choice([2, 3, 4, 6, 8, 12, 16])
     style = rnd.choice(["mixed", "mixed", "same-input", "compile-only", "decompile-only"])
-    ids = list(range(len(pool)))
+    big = [i for i in range(len(pool)) if pool[i].get("cls") == "many-routines"]
+    ids = [i for i in range(len(pool)) if i not in big]
     if style == "compile-only":
         ids = [i for i in ids if pool[i]["k"] == "compile"] or ids
     elif style == "decompile-only":
         ids = [i for i in ids if pool[i]["k"] != "compile"] or ids
+    until = False
     per = rnd.randint(1, 3 if nt > 6 else 4)
     if style == "same-input":
         one = [rnd.choice(ids) for _ in range(per)]
         assign = [list(one) for _ in range(nt)]
     else:
         assign = [[rnd.choice(ids) for _ in range(per)] for _ in range(nt)]
-    return {"threads": assign, "style": style, "p": rnd.choice([0.0, 0.02, 0.1, 0.3]), "cold": rnd.random() < 0.75,
+    if big and style in ("mixed", "decompile-only") and rnd.random() < 0.5:
+        # one thread works on a script with hundreds of routines while the others do small things
+        dec = [i for i in ids if pool[i]["k"] != "compile"] or ids
+        assign = [[big[0]]] + [[rnd.choice(dec) for _ in range(6)] for _ in range(min(nt, 5) - 1)]
+        until = True
+    return {"threads": assign, "style": style, "until_thread0_done": until, "p": rnd.choice([0.0, 0.02, 0.1, 0.3]), "cold": rnd.random() < 0.75,
             "switchinterval": rnd.choice([1e-6, 1e-6, 1e-5, 0.005]), "seed": rnd.randrange(1 << 30)}
 
 
@@ -159,6 +166,7 @@ def run_schedule(acc, pool, gold, sched, base_inp):
     nt = len(sched["threads"])
     barrier = threading.Barrier(nt)
     records = []
+    done0 = threading.Event()
     clock = time.monotonic_ns
 
     def worker(idx):
@@ -168,7 +176,13 @@ def run_schedule(acc, pool, gold, sched, base_inp):
             barrier.wait(timeout=60)
         except threading.BrokenBarrierError:
             return
-        for j in sched["threads"][idx]:
+        jobs = list(sched["threads"][idx])
+        k = 0
+        while k < len(jobs):
+            j = jobs[k]
+            k += 1
+            if sched.get("until_thread0_done") and idx != 0 and k == len(jobs) and not done0.is_set() and k < 120:
+                jobs += sched["threads"][idx]  # keep the small jobs coming while thread 0 is still busy with the big one
             job = pool[j]
             t0 = clock()
             try:
@@ -176,6 +190,8 @@ def run_schedule(acc, pool, gold, sched, base_inp):
             except BaseException as e:  # compute() catches Exception; anything else is the harness' problem
                 res = {"ok": False, "exc": "HARNESS:" + type(e).__name__, "msg": str(e)[:200]}
             records.append((idx, j, t0, clock(), res))
+        if idx == 0:
+            done0.set()
 
     old = sys.getswitchinterval()
     sys.setswitchinterval(sched["switchinterval"])
